@@ -560,7 +560,11 @@ func TestVerifC15Manager(t *testing.T) {
 		}
 		// every planted secret that stands in the file
 		var planted []string
-		for _, s := range []string{vc15MSecretHex, vc15MSecretOld, vc15MClusterKey, vc15MPassword, vc15MPassOld, vc15MRestKey} {
+		defSecret, _ := defDocs["cluster"]["secret"].(string) // the secret Default() drew for the default cluster document
+		for _, s := range []string{vc15MSecretHex, vc15MSecretOld, vc15MClusterKey, vc15MPassword, vc15MPassOld, vc15MRestKey, defSecret} {
+			if s == "" {
+				continue
+			}
 			if bytes.Contains(raw, []byte(s)) {
 				planted = append(planted, s)
 			}
